@@ -4,6 +4,7 @@ package jp
 
 import (
 	"reflect"
+	"sort"
 	"strings"
 
 	"github.com/ohler55/ojg/gen"
@@ -1950,9 +1951,31 @@ func reflectGetWild(data any) (va []any) {
 					va = append(va, rv.Interface())
 				}
 			}
+		case reflect.Map:
+			keys := sortedMapKeys(rd)
+			for i := len(keys) - 1; 0 <= i; i-- {
+				rv := rd.MapIndex(keys[i])
+				if rv.CanInterface() {
+					va = append(va, rv.Interface())
+				}
+			}
 		}
 	}
 	return
+}
+
+// sortedMapKeys returns the keys of a map with string keys in sorted order so
+// the members of a typed map, like those of a struct, are visited in a
+// repeatable order. A map with other keys has no members a path can name.
+func sortedMapKeys(rd reflect.Value) []reflect.Value {
+	if rd.Type().Key().Kind() != reflect.String {
+		return nil
+	}
+	keys := rd.MapKeys()
+	sort.Slice(keys, func(i, j int) bool {
+		return keys[i].String() < keys[j].String()
+	})
+	return keys
 }
 
 func reflectGetWildOne(data any) (any, bool) {
@@ -1975,6 +1998,13 @@ func reflectGetWildOne(data any) (any, bool) {
 			size := rd.Len()
 			if 0 < size {
 				rv := rd.Index(0)
+				if rv.CanInterface() {
+					return rv.Interface(), true
+				}
+			}
+		case reflect.Map:
+			for _, k := range sortedMapKeys(rd) {
+				rv := rd.MapIndex(k)
 				if rv.CanInterface() {
 					return rv.Interface(), true
 				}
